@@ -1221,9 +1221,16 @@ def meta_case(seed, index):
                     nontrivial=False, key="meta:%d:%d" % (seed, index))
     cS, cD, facts = pair
     shape_seed = rng.randrange(1 << 30)
+    def _obs(cut):
+        try:
+            return observe_build(cut, shape_seed)
+        except Exception as e:      # nothing may escape: an unobservable build is itself a difference
+            g.REC.reset()
+            g.REC.cls = None
+            return {"def": "ok" if cut.cls is not None else "rejected", "observation-crashed": type(e).__name__}
     try:
-        oS = observe_build(cS, shape_seed)
-        oD = observe_build(cD, shape_seed)
+        oS = _obs(cS)
+        oD = _obs(cD)
     finally:
         # class names repeat from case to case: keep attrs' unique-filename search short
         for k in [k for k in linecache.cache if k.startswith("<attrs generated")]:
@@ -1255,8 +1262,10 @@ def meta_case(seed, index):
            "k6_shape": facts["k6_shape"], "k6_base_setattr_kept_by_slots_build": k6_active,
            "is_exception_class": bool(cS.cls is not None and issubclass(cS.cls, BaseException))}
     if "hash" in differing:
-        sig["hash_slots"] = "+".join(sorted(set(map(str, differing["hash"]["slots"]["outcome"]))))
-        sig["hash_dict"] = "+".join(sorted(set(map(str, differing["hash"]["dict"]["outcome"]))))
+        def _outs(v):
+            return "+".join(sorted(set(map(str, v["outcome"])))) if isinstance(v, dict) else str(v)
+        sig["hash_slots"] = _outs(differing["hash"]["slots"])
+        sig["hash_dict"] = _outs(differing["hash"]["dict"])
     if k6_active:
         # with the base's hooks still active even construction can differ: one signature for the family
         sig["differs"] = sig["differs"] and "k6-downstream"
